@@ -109,16 +109,34 @@ func init() {
 					{Op: []string{"add", "remove"}[rng.Intn(2)], Set: 1 + rng.Intn(2), Lo: bs[3][0][:], Hi: bs[3][1][:]},
 				}
 			}
+			if id%6 == 2 {
+				// a box whose face is written as k*0.1, then a removal up to the nearly equal plane k/10 on the same axis
+				ax := rng.Intn(3)
+				k := []int{3, 6, 7}[rng.Intn(3)] - 3
+				a := rectOp{Op: "add", Set: 1, Lo: []int{-3, -3, -3}, Hi: []int{0, 0, 0}}
+				a.Hi[ax] = k
+				a.Hi[(ax+1)%3], a.Hi[(ax+2)%3] = -1+rng.Intn(3), -1+rng.Intn(3)
+				b := rectOp{Op: "remove", Set: 1, Lo: []int{-2, -2, -2}, Hi: []int{1, 1, 1}}
+				b.Lo[ax], b.Hi[ax] = -2+rng.Intn(2), k
+				c := rectOp{Op: "add", Set: 1, Lo: []int{-1, -1, -1}, Hi: []int{2, 2, 2}}
+				c.Lo[ax], c.Hi[ax] = k, k+1
+				rec.Ops = []rectOp{a, b, c}[:2+rng.Intn(2)]
+			}
 			rec.Panic = protect(func() {
 				sets := [2]*toolbox3d.RectSet{toolbox3d.NewRectSet(), toolbox3d.NewRectSet()}
 				// every third history in tenths: the coordinate k/10 is written as k*0.1, k/10 or a sum of tenths, which
 				// differ from each other by an ulp now and then (faces that are nearly, but not exactly, in one plane)
 				unit := 1.0
+				forced := -1 // (tenths) which way of writing k/10 the next box uses; -1: any
 				cv := func(k int) float64 { return float64(k) }
 				if id%3 == 2 {
 					unit = 0.1
 					cv = func(k int) float64 {
-						switch rng.Intn(3) {
+						way := rng.Intn(3)
+						if forced >= 0 {
+							way = forced
+						}
+						switch way {
 						case 0:
 							return float64(k) * 0.1
 						case 1:
@@ -134,7 +152,12 @@ func init() {
 						return v
 					}
 				}
-				for _, o := range rec.Ops {
+				for oi, o := range rec.Ops {
+					if id%6 == 2 {
+						// the template below: additions written as k*0.1, removals as k/10 (which is smaller for k = 3, 6, 7)
+						forced = map[string]int{"add": 0, "remove": 1}[o.Op]
+					}
+					_ = oi
 					r := model3d.NewRect(model3d.XYZ(cv(o.Lo[0]), cv(o.Lo[1]), cv(o.Lo[2])),
 						model3d.XYZ(cv(o.Hi[0]), cv(o.Hi[1]), cv(o.Hi[2])))
 					arg := toolbox3d.NewRectSet()
